@@ -11,12 +11,14 @@
         x |-> compare(k, x)       (_M_get_insert_unique_pos, _M_upper_bound: insert, equal_range)
     of the stored key x.  When such a predicate is monotone along the in-order sequence (false ... false
     true ... true) the descent ends at the first element satisfying it, whatever the shape of the tree
-    ([TermListProofs.tree_lower_bound_is_scan]).  Monotonicity holds as soon as the stored sequence is
+    ([TermListProofs.tree_lower_bound_is_scan]; for insert, which needs the element BEFORE that position -- the
+    one that blocks a refused insertion --: [TermListProofs.tree_insert_pos_is_scan]).  Monotonicity holds as soon as the stored sequence is
     increasing w.r.t. compare and compare is transitive ([TermListProofs.scan_*]); and that invariant
     ([sorted_sep]: consecutive stored poles are at least Tolerance apart) is preserved by add_term
     ([TermListProofs.add_term_sorted]) because a merge keeps the STORED pole (Term::operator+= adds
-    residues only).  Hence the set is modelled by its in-order sequence, a list, and the three
-    operations by linear scans for the first element satisfying the predicate.
+    residues only).  Hence the set is modelled by its in-order sequence, a list, and the
+    operations by linear scans for the first element satisfying the predicate; erase(iterator) removes the
+    element the iterator points to.
 
     Generic in the pole type P and the residue type C; nothing here computes with numbers.
     Besides the new sequence add_term returns an [event] describing what happened to the term: the
